@@ -952,6 +952,11 @@ func (ds *AnySource) PrepareRun(Npresamples int, Nsamples int) error {
 			ts = &defaultTS
 		}
 		dsp.TriggerState = *ts
+		// The trigger state holds its own copy of the record lengths (it sizes the history
+		// kept between blocks). A restored or default state knows nothing of them: sync it.
+		dsp.EMTState.nsamp = int32(Nsamples)
+		dsp.EMTState.npre = int32(Npresamples)
+		dsp.EMTState.reset()
 
 		// Publish Records and Record Summaries over ZMQ. Not optional at this time.
 		dsp.SetPubRecords()
